@@ -356,6 +356,7 @@ theorem seq_step (hw : T.WFInv) (nroot fuel : Nat) (IH : AllSpecs T nroot fuel) 
     refine Post_ite _ _ _ _ _ (fun _ => Post_ite _ _ _ _ _
       (fun _ => br_def T hw IH _ hg tok rest envStop out ht hr ho)
       (fun _ => br_macro T IH _ hg tok rest envStop out ht hr ho)) (fun h4 => ?_)
+    refine Post_ite _ _ _ _ _ (fun hk => br_verb T hw IH _ hg tok rest envStop out ht hr ho hk) (fun h8 => ?_)
     refine Post_ite _ _ _ _ _ (fun _ => br_inline T IH _ hg tok rest envStop out ht hr ho) (fun _ => ?_)
     refine Post_ite _ _ _ _ _ (fun hk =>
       br_display T IH _ hg tok rest envStop out _ _ ht hr ho (mathBegin_name T _ tok ht hk)) (fun h5 => ?_)
@@ -367,7 +368,6 @@ theorem seq_step (hw : T.WFInv) (nroot fuel : Nat) (IH : AllSpecs T nroot fuel) 
       br_plain T IH _ hg _ _ _ hr (OL_snoc T _ _ _ ho (OTok_mkAction T _ _ ht.1.1))) (fun _ => ?_)
     refine Post_ite _ _ _ _ _ (fun hk =>
       br_special T IH _ hg tok rest envStop out ht hr ho (by simpa using hk)) (fun h7 => ?_)
-    refine Post_ite _ _ _ _ _ (fun hk => br_verb T hw IH _ hg tok rest envStop out ht hr ho hk) (fun h8 => ?_)
     refine Post_ite _ _ _ _ _ (fun hk => br_lang T IH _ hg tok rest envStop out ht hr ho hk) (fun _ => ?_)
     have hok : outKind tok = true := outKind_of_not tok ht.2 h1 h2 h3 h4 h5 h6 h7 h8
     refine Post_ite _ _ _ _ _ (fun _ => br_active T IH _ hg tok rest envStop out ht hr ho hok) (fun _ => ?_)
